@@ -8,7 +8,7 @@
   `tr[k]? = some m` reads "the k-th message of the trace is m"; `answer script k` is the
   callback's answer to it.
 -/
-import YaraModel.Lemmas.CallbackProps
+import YaraModel.Lemmas.CallbackLimit
 namespace YaraModel.Cb
 
 /-- **Refinement.** The model of the code (module table, two bit sets, skipped rules, loop with
@@ -232,6 +232,116 @@ theorem import_imported_once_per_module (rs : List Rule) (imports : List String)
     rw [count_distinctModules] at h
     exact h
 
+/-! ### The too-many-matches warning (matching phase, `fullScan`)
+
+  `limit` is `YR_MAX_STRING_MATCHES` (any value), `events` is ANY sequence of occurrences (string index
+  per occurrence, in scan order), the rule list is ANY list of rules whose conditions refer to strings by
+  index (`$s`, `#s > n`), the script is ANY list of answers. -/
+
+/-- **Refinement, matching phase included**: per-string counters, the list-is-full test, the disabled
+    bit set and the early exit produce exactly: the warnings of `tooManyMsgs`, then the protocol of a scan
+    in which every string has `min occurrences limit` matches, delivered under the stop rules. -/
+theorem fullScan_eq_spec (limit : Nat) (events : List Nat) (rs : List SRule) (imports : List String)
+    (fl : Flags) (script : List Ret) :
+    fullScan limit events rs imports fl script = specFullScan limit events rs imports fl script :=
+  fullScan_eq_specFullScan limit events rs imports fl script
+
+/-- **Exactly once per overflowing string, carrying that string**: the warnings of any scan are an
+    initial segment of `tooManyMsgs`, all of it as soon as anything else was delivered; and `tooManyMsgs`
+    holds the warning for string `s` once if `s` occurs more than `limit` times, not at all otherwise. -/
+theorem too_many_matches_once_per_string (limit : Nat) (events : List Nat) (rs : List SRule)
+    (imports : List String) (fl : Flags) (script : List Ret) :
+    (fullScan limit events rs imports fl script).1.filter Msg.isTooMany <+: tooManyMsgs limit events ∧
+    ((∃ m ∈ (fullScan limit events rs imports fl script).1, m.isTooMany = false) →
+      (fullScan limit events rs imports fl script).1.filter Msg.isTooMany = tooManyMsgs limit events) ∧
+    (∀ s : Nat, (tooManyMsgs limit events).count (.tooManyMatches s) = if limit < events.count s then 1 else 0) := by
+  have hp : (fullScan limit events rs imports fl script).1 <+: fullProtocol limit events rs imports fl := by
+    rw [fullScan_trace]; exact play_prefix _ _
+  refine ⟨?_, ?_, count_tooManyMsgs limit events⟩
+  · rw [← fullProtocol_filter_tooMany limit events rs imports fl]; exact hp.filter _
+  · rintro ⟨m, hm, hnm⟩
+    have hT : tooManyMsgs limit events <+: fullProtocol limit events rs imports fl := List.prefix_append _ _
+    rcases List.prefix_or_prefix_of_prefix hp hT with h | h
+    · have := tooManyMsgsFrom_isTooMany limit [] events m (h.subset hm)
+      rw [hnm] at this; cases this
+    · obtain ⟨t, ht⟩ := h
+      rw [← ht] at hp ⊢
+      have ht' : t <+: protocol (rs.map (SRule.resolve (specCount limit events))) imports fl :=
+        (List.prefix_append_right_inj _).1 hp
+      have hft : t.filter Msg.isTooMany = [] := by
+        rw [List.filter_eq_nil_iff]
+        intro a ha
+        simp [protocol_not_tooMany (ht'.subset ha)]
+      rw [List.filter_append, hft, List.append_nil, List.filter_eq_self]
+      intro a ha; exact tooManyMsgsFrom_isTooMany limit [] events a ha
+
+/-- **ABORT or ERROR in answer to the warning halts the scan**: the warning is the last message (no
+    module, rule or finished message) and the scan returns too-many-matches. -/
+theorem too_many_matches_abort_error_halt (limit : Nat) (events : List Nat) (rs : List SRule)
+    (imports : List String) (fl : Flags) (script : List Ret) (k s : Nat)
+    (hm : (fullScan limit events rs imports fl script).1[k]? = some (.tooManyMatches s))
+    (ha : answer script k ≠ .cont) :
+    (fullScan limit events rs imports fl script).1.length = k + 1 ∧
+    (fullScan limit events rs imports fl script).2 = .tooManyMatches := by
+  apply fullScan_stop limit events rs imports fl script k _ _ hm
+  rw [verdict_tooMany]
+  cases hk : answer script k <;> simp_all
+
+/-- **After CONTINUE only that string stops matching**: when every warning is answered with CONTINUE
+    all warnings are delivered, and what follows is exactly the scan (module, rule and finished messages,
+    return code — all theorems above apply to it) of the same rules in which string `s` has
+    `specCount limit events s` matches, with the callback's remaining answers; `specCount` is the number
+    of occurrences for every string within the limit and `limit` for the others. -/
+theorem continue_disables_only_that_string (limit : Nat) (events : List Nat) (rs : List SRule)
+    (imports : List String) (fl : Flags) (script : List Ret)
+    (hcont : ∀ k, k < (tooManyMsgs limit events).length → answer script k = .cont) :
+    fullScan limit events rs imports fl script =
+      (tooManyMsgs limit events ++
+         (scan (rs.map (SRule.resolve (specCount limit events))) imports fl
+            (script.drop (tooManyMsgs limit events).length)).1,
+       (scan (rs.map (SRule.resolve (specCount limit events))) imports fl
+            (script.drop (tooManyMsgs limit events).length)).2) ∧
+    (∀ s : Nat, events.count s ≤ limit → specCount limit events s = events.count s) ∧
+    (∀ s : Nat, limit < events.count s → specCount limit events s = limit) := by
+  refine ⟨fullScan_of_continue limit events rs imports fl script hcont, ?_, ?_⟩ <;>
+    (intro s h; simp only [specCount]; omega)
+
+/-- **The warning does not change which other messages are sent**: if no count comparison in the
+    rules can see the cap (`#s > n` only with `n < limit` or on strings within the limit; `$s` never can),
+    the messages after the warnings and the return code are those of the scan with no limit at all. -/
+theorem warning_changes_nothing_else (limit : Nat) (hl : 0 < limit) (events : List Nat) (rs : List SRule)
+    (imports : List String) (fl : Flags) (script : List Ret)
+    (hfree : ∀ r ∈ rs, r.cond.limitFree limit (fun s => events.count s))
+    (hcont : ∀ k, k < (tooManyMsgs limit events).length → answer script k = .cont) :
+    fullScan limit events rs imports fl script =
+      (tooManyMsgs limit events ++
+         (scan (rs.map (SRule.resolve (fun s => events.count s))) imports fl
+            (script.drop (tooManyMsgs limit events).length)).1,
+       (scan (rs.map (SRule.resolve (fun s => events.count s))) imports fl
+            (script.drop (tooManyMsgs limit events).length)).2) := by
+  have hmap : rs.map (SRule.resolve (specCount limit events)) = rs.map (SRule.resolve (fun s => events.count s)) := by
+    apply List.map_congr_left
+    intro r hr
+    simp only [SRule.resolve]
+    congr 1
+    exact resolve_limitFree limit hl (fun s => events.count s) r.cond (hfree r hr)
+  rw [fullScan_of_continue limit events rs imports fl script hcont, hmap]
+
+/-- No string over the limit: no warning, and the scan is the ordinary scan. -/
+theorem no_warning_within_limit (limit : Nat) (events : List Nat) (rs : List SRule)
+    (imports : List String) (fl : Flags) (script : List Ret) :
+    (tooManyMsgs limit events = [] ↔ ∀ s : Nat, events.count s ≤ limit) ∧
+    ((∀ s : Nat, events.count s ≤ limit) →
+      fullScan limit events rs imports fl script =
+        scan (rs.map (SRule.resolve (fun s => events.count s))) imports fl script) := by
+  refine ⟨tooManyMsgs_eq_nil_iff limit events, fun h => ?_⟩
+  have hnil := (tooManyMsgs_eq_nil_iff limit events).2 h
+  have hc : specCount limit events = fun s => events.count s := by
+    funext s; simp only [specCount]; have := h s; omega
+  have := fullScan_of_continue limit events rs imports fl script (by rw [hnil]; intro k hk; cases hk)
+  rw [this, hnil, hc]
+  simp
+
 /-! ### Non-vacuity: concrete instances of the hypotheses above -/
 
 /-- three namespaces-worth of shapes: a false global+private rule in namespace 0, a true global rule
@@ -263,5 +373,33 @@ example : scan exampleRules ["pe"] ⟨true, false⟩ [.cont, .cont, .cont, .erro
 -- error on a module message (k = 1, the imported message)
 example : scan exampleRules ["pe", "math"] ⟨true, true⟩ [.cont, .error] =
     ([.importModule "pe", .moduleImported "pe"], .callbackError) := by decide
+
+/-- strings 0,1 belong to rule 0, string 2 to rule 1 (index ≠ rule index), string 3 to rule 2 -/
+def exampleSRules : List SRule :=
+  [⟨0, false, false, .or (.str 1) (.str 0)⟩, ⟨0, false, false, .and (.str 2) (.not (.cnt 2 3))⟩,
+   ⟨1, true, true, .str 3⟩]
+
+-- limit 3; string 2 occurs five times, string 1 once after the overflow: one warning, answered CONTINUE
+example : fullScan 3 [2, 2, 0, 2, 2, 2, 1] exampleSRules ["pe"] ⟨true, true⟩ [] =
+    ([.tooManyMatches 2, .importModule "pe", .moduleImported "pe", .ruleMatching 0, .ruleMatching 1,
+      .scanFinished], .success) := by decide
+
+-- the same with ABORT / with ERROR in answer to the warning
+example : fullScan 3 [2, 2, 0, 2, 2, 2, 1] exampleSRules ["pe"] ⟨true, true⟩ [.abort] =
+    ([.tooManyMatches 2], .tooManyMatches) := by decide
+example : fullScan 3 [2, 2, 0, 2, 2, 2, 1] exampleSRules ["pe"] ⟨true, true⟩ [.error] =
+    ([.tooManyMatches 2], .tooManyMatches) := by decide
+
+-- two overflowing strings, the second warning answered with ABORT (k = 1)
+example : fullScan 2 [2, 0, 2, 0, 0, 2, 0] exampleSRules [] ⟨true, true⟩ [.cont, .abort] =
+    ([.tooManyMatches 0, .tooManyMatches 2], .tooManyMatches) := by decide
+
+-- hypotheses of `warning_changes_nothing_else` are satisfiable with an overflowing string present
+example : (∀ r ∈ exampleSRules, r.cond.limitFree 4 (fun s => [2, 2, 0, 2, 2, 2, 1].count s)) ∧
+    tooManyMsgs 4 [2, 2, 0, 2, 2, 2, 1] = [.tooManyMatches 2] := by
+  refine ⟨?_, by decide⟩
+  intro r hr
+  simp only [exampleSRules, List.mem_cons, List.not_mem_nil, or_false] at hr
+  rcases hr with h | h | h <;> subst h <;> simp [SCond.limitFree]
 
 end YaraModel.Cb
